@@ -201,7 +201,33 @@ def _decode_di(case, cls, node, data, nlb):
     return out
 
 
+def check_boolean_bytes(case):
+    """E5: a BOOLEAN byte of zero is false, every other value is true (a foreign encoder may write 0xFF or 0x80 for true)."""
+    out = []
+    vals = case["bytes"]
+    data = e5.enc(("BOOLEAN", [True] * len(vals)))[:-len(vals)] + bytes(vals)
+    want = [b != 0 for b in vals]
+    for tname, mk in (("BOOLEAN", lambda: ce.VCLASS["BOOLEAN"]()), ("ANYVALUE", lambda: ce.anyvalue()()),
+                      ("in-list", lambda: V.Array(ce.anyvalue()))):
+        raw = data if tname != "in-list" else b"\x01\x01" + data
+        try:
+            obj = mk()
+            pos = obj.decode(raw)
+            g = obj.get()
+            if tname == "in-list":
+                g = g[0]
+        except Exception as exc:  # noqa: BLE001
+            out.append((f"C02|boolean-byte-decode-raises|target={tname}", {"case": case, "error": repr(exc)}))
+            continue
+        got = [g] if isinstance(g, bool) else list(g)
+        if got != want or pos != len(raw):
+            out.append((f"C02|boolean-nonzero-byte-not-true|target={tname}", {"case": case, "got": got, "want": want}))
+    return {"v": out, "nt": True}
+
+
 def check_case(case):
+    if case["kind"] == "boolbytes":
+        return check_boolean_bytes(case)
     if case["kind"] == "nc":
         return check_noncanonical(case)
     if case["kind"] == "di":
@@ -219,6 +245,13 @@ def cases(ctx):
     for code in ("A", "J", "B"):
         for b in range(256):
             yield {"kind": "nc", "desc": {"code": code, "vals": [b]}}
+    for b in range(256):
+        yield {"kind": "boolbytes", "bytes": [b]}
+        yield {"kind": "boolbytes", "bytes": [0, b, 1]}
+    # an empty item of every type followed by another item in one list (the cursor must not move past an empty item's end)
+    for code in gen.LEAF_CODES:
+        if code != "J":
+            yield {"kind": "nc", "desc": {"code": "L", "items": [{"code": code, "vals": []}, {"code": "U1", "vals": [5]}, {"code": code, "vals": []}]}, "limit": 4}
     # (b) every finite float exponent x boundary mantissas
     mant4 = [0, 1, 2, 0x400000, 0x7FFFFE, 0x7FFFFF]
     mant8 = [0, 1, 2, 1 << 51, (1 << 52) - 2, (1 << 52) - 1]
